@@ -437,29 +437,29 @@ func check(prop, tr string) int {
 		}
 	}
 	cov := map[string]any{
-		"evaluations":                evals,
-		"distinct_nontrivial":        len(keys),
-		"rule":                       wi.Rule,
-		"samples":                    samples,
-		"nontrivial_evaluations":     nontriv,
-		"distinct_keys_saturated":    saturated,
-		"distinct_abstract_states":   len(states),
-		"runs_per_hour":              int(float64(evals) / maxf(wall-buildS, 0.001) * 3600),
-		"seeds_per_hour":             int(3600 / maxf(wall, 0.001)),
-		"simulated_time_s":           simS,
-		"scheduler_steps":            steps,
-		"faults_injected":            faults,
-		"probes":                     probes,
-		"probes_not_reached":         notReached,
-		"inconclusive_runs":          inconcl,
-		"other_property_violations":  other,
-		"known_finding_hits":         known,
-		"world":                      wi.Name,
-		"real_components":            wi.Real,
-		"stub_components":            wi.Stub,
-		"workers":                    nw,
-		"search_seconds_per_worker":  secs,
-		"build_s":                    buildS,
+		"evaluations":               evals,
+		"distinct_nontrivial":       len(keys),
+		"rule":                      wi.Rule,
+		"samples":                   samples,
+		"nontrivial_evaluations":    nontriv,
+		"distinct_keys_saturated":   saturated,
+		"distinct_abstract_states":  len(states),
+		"runs_per_hour":             int(float64(evals) / maxf(wall-buildS, 0.001) * 3600),
+		"seeds_per_hour":            int(3600 / maxf(wall, 0.001)),
+		"simulated_time_s":          simS,
+		"scheduler_steps":           steps,
+		"faults_injected":           faults,
+		"probes":                    probes,
+		"probes_not_reached":        notReached,
+		"inconclusive_runs":         inconcl,
+		"other_property_violations": other,
+		"known_finding_hits":        known,
+		"world":                     wi.Name,
+		"real_components":           wi.Real,
+		"stub_components":           wi.Stub,
+		"workers":                   nw,
+		"search_seconds_per_worker": secs,
+		"build_s":                   buildS,
 	}
 	if first != nil {
 		cov["violation"] = map[string]any{"clause": first.Clause, "detail": first.Detail, "replay": replayPath, "trace_len": len(first.Trace), "original_trace_len": first.OrigLen}
